@@ -28,7 +28,7 @@ ASSUMPTIONS = ["numpy's own indexing of the plain array with translated column p
                'or channels)']
 BUDGET = {
     'quick': dict(examples=3000, time_s=300, maxshape=3),
-    'thorough': dict(examples=150000, time_s=2400, maxshape=3),
+    'thorough': dict(examples=150000, time_s=2400, maxshape=3, fuzz=dict(workers=8, runs=6000, max_s=300)),
 }
 
 
